@@ -132,6 +132,52 @@ def check_case(case):
     except Exception as e:
         out.append(("cmp_raises:%s" % type(e).__name__, "%s == itself raised %r" % (a, e)))
 
+    # second-generation operands: results of exact operations are prefixed numbers too (longer mantissas, mantissa
+    # exponents of their own); the same laws apply to them
+    for name, fn, v2 in (("mul", lambda: a * b, va * vb), ("add", lambda: a + b, va + vb)):
+        try:
+            r = fn()
+        except Exception:
+            continue  # reported above
+        if not isinstance(r, Prefixed) or val(r) != v2:
+            continue  # reported above
+        for name2, fn2, e2 in (("%s_then_mul" % name, lambda: r * a, v2 * va), ("%s_then_sub" % name, lambda: r - b, v2 - vb),
+                               ("%s_then_scale" % name, lambda: r.scale(a.prefix), v2), ("%s_then_neg" % name, lambda: -r, -v2)):
+            try:
+                r2 = fn2()
+            except Exception as e:
+                out.append(("%s_raises:%s" % (name2, type(e).__name__), "%s on %s (= %s of %s, %s) raised %r" % (name2, r, name, a, b, e)))
+                continue
+            if not isinstance(r2, Prefixed) or val(r2) != e2:
+                out.append(("%s_inexact" % name2, "%s on %s (= %s of %s, %s) gave %s, exact value %s" % (name2, r, name, a, b, r2, e2)))
+        try:
+            i = int(r)
+            if i != int(v2):
+                out.append(("int_wrong", "int(%s) = %r (operand is %s of %s, %s), integer part of the value is %d" % (r, i, name, a, b, int(v2))))
+        except Exception as e:
+            out.append(("int_raises:%s" % type(e).__name__, "int(%s) raised %r" % (r, e)))
+        try:
+            ef = float(v2)
+        except OverflowError:
+            ef = None
+        if ef is not None:
+            try:
+                f = float(r)
+                if f != ef:
+                    out.append(("float_not_nearest", "float(%s) = %r (operand is %s of %s, %s), nearest double is %r" % (r, f, name, a, b, ef)))
+            except Exception as e:
+                out.append(("float_raises:%s" % type(e).__name__, "float(%s) raised %r" % (r, e)))
+        try:
+            c = (r < a, r == a, r > a)
+            if abs(v2 - va) > TOL and c != (v2 < va, v2 == va, v2 > va):
+                out.append(("cmp_wrong:derived", "%s (= %s of %s, %s) vs %s: lt,eq,gt = %s" % (r, name, a, b, a, c)))
+            if c.count(True) != 1:
+                out.append(("cmp_trichotomy", "%s vs %s: lt,eq,gt = %s" % (r, a, c)))
+            if v2 == va and hash(r) != hash(a):
+                out.append(("hash_mismatch", "hash(%s) != hash(%s) though both denote %s" % (r, a, va)))
+        except Exception as e:
+            out.append(("cmp_raises:%s" % type(e).__name__, "%s compared with %s raised %r" % (r, a, e)))
+
     # int / float
     try:
         i = int(a)
@@ -189,6 +235,11 @@ def feats(case):
         f.append("zero")
     if (va < 0) != (vb < 0):
         f.append("mixed_sign")
+    ea, eb = Decimal(a[0]).adjusted(), Decimal(b[0]).adjusted()
+    if min(ea, eb) < -40:
+        f.append("tiny_mantissa_exponent")
+    if max(ea, eb) > 40:
+        f.append("huge_mantissa_exponent")
     return f
 
 
@@ -217,7 +268,9 @@ def shard(idx, n, tier):
     nex = (60000 if tier == "thorough" else 6000) // n
 
     digits = st.integers(1, maxd).flatmap(lambda k: st.integers(10 ** (k - 1) if k > 1 else 0, 10 ** k - 1))
-    mant_s = st.tuples(st.booleans(), digits, st.integers(-30, 30)).map(
+    # the mantissa's own exponent: mostly moderate, sometimes far out (1E-90 is a one-digit Decimal mantissa)
+    mexp = st.one_of(st.integers(-30, 30), st.integers(-30, 30), st.integers(-120, 120))
+    mant_s = st.tuples(st.booleans(), digits, mexp).map(
         lambda t: "%s%dE%d" % ("-" if t[0] else "", t[1], t[2]))
     plain = st.tuples(st.booleans(), st.integers(0, 10**9), st.integers(0, 9)).map(
         lambda t: str(Decimal(("-" if t[0] else "") + str(t[1])).scaleb(-t[2])))
